@@ -7,6 +7,7 @@ import (
 	"fmt"
 	"testing"
 	"time"
+	_ "time/tzdata"
 
 	"github.com/SAP/go-dblib/asetime"
 	"github.com/SAP/go-dblib/asetypes"
@@ -485,4 +486,100 @@ func TestConcurrentConversions(t *testing.T) {
 		return f
 	}
 	vh.Check(t, "TestConcurrentConversions", vh.N(1500, 30000), gen, run)
+}
+
+// ---- values in other locations than UTC: a time.Time carries a location; what goes on the
+// wire is its wall clock reading (dates as days, times as ticks since THAT day's midnight on
+// the clock), so a value in a zone with daylight saving rules encodes exactly like the same
+// wall clock reading in UTC - also on the days the clocks change (a day of 23 or 25 hours)
+
+type localCase struct {
+	T    byte   `json:"t"`
+	Len  int64  `json:"len"`
+	Loc  string `json:"location"`
+	Y    int    `json:"y"`
+	M    int    `json:"m"`
+	D    int    `json:"d"`
+	H    int    `json:"h"`
+	Mi   int    `json:"mi"`
+	S    int    `json:"s"`
+	Ns   int    `json:"ns"`
+	Secs int    `json:"fixed_zone_offset_s,omitempty"`
+}
+
+func (c localCase) location() *time.Location {
+	if c.Loc == "fixed" {
+		return time.FixedZone("fixed", c.Secs)
+	}
+	loc, err := time.LoadLocation(c.Loc)
+	if err != nil {
+		vh.HarnessBug("LoadLocation(%q): %v", c.Loc, err)
+	}
+	return loc
+}
+
+func runLocal(c localCase) (f *vh.Failure) {
+	defer func() {
+		if r := recover(); r != nil {
+			f = vh.Failf("C05/local-time-panic", "%+v: panic: %v", c, r)
+		}
+	}()
+	dt := asetypes.DataType(c.T)
+	t := time.Date(c.Y, time.Month(c.M), c.D, c.H, c.Mi, c.S, c.Ns, c.location())
+	// what the clock on the wall shows for t (time.Date normalises readings that do not exist)
+	y, m, d := t.Date()
+	hh, mm, ss := t.Clock()
+	u := time.Date(y, m, d, hh, mm, ss, t.Nanosecond(), time.UTC)
+	a, errA := dt.Bytes(le, t, c.Len)
+	b, errB := dt.Bytes(le, u, c.Len)
+	if (errA == nil) != (errB == nil) {
+		return vh.Failf("C05/local-time", "%s: %v encodes with error %v, the same wall clock reading in UTC with error %v", dt, t, errA, errB)
+	}
+	if errA != nil {
+		vh.Label("local:out-of-range")
+		return nil
+	}
+	if !bytes.Equal(a, b) {
+		return vh.Failf("C05/local-time", "%s: %v is written as % x, the same wall clock reading in UTC (%v) as % x", dt, t, a, u, b)
+	}
+	_, off := t.Zone()
+	_, offNoon := time.Date(y, m, d, 12, 0, 0, 0, t.Location()).Zone()
+	_, offMidnight := time.Date(y, m, d, 0, 0, 0, 0, t.Location()).Zone()
+	vh.Label("local:" + c.Loc)
+	if off != offMidnight || offNoon != offMidnight {
+		vh.Label("local:clock-change-day")
+		vh.NonTrivial(fmt.Sprintf("%+v", c))
+	}
+	return nil
+}
+
+var localTypes = []struct {
+	T   byte
+	Len int64
+}{{rc.TDateTime, 8}, {rc.TDateTimeN, 8}, {rc.TDateTimeN, 4}, {rc.TShortDate, 4}, {rc.TDate, 4}, {rc.TDateN, 4}, {rc.TTime, 4}, {rc.TTimeN, 4}, {rc.TBigDateTimeN, 8}, {rc.TBigTimeN, 8}}
+
+// clock-change days of the zones used (spring forward / fall back), so that they are frequent
+var changeDays = map[string][][3]int{
+	"Europe/Berlin":       {{2024, 3, 31}, {2024, 10, 27}, {1996, 10, 27}, {2031, 3, 30}},
+	"America/New_York":    {{2024, 3, 10}, {2024, 11, 3}, {1987, 4, 5}},
+	"Australia/Lord_Howe": {{2024, 4, 7}, {2024, 10, 6}},
+	"America/Sao_Paulo":   {{2018, 11, 4}, {2019, 2, 17}}, // the change is at midnight: 00:00 does not exist
+}
+
+func TestLocalTimes(t *testing.T) {
+	gen := func(rt *rapid.T) localCase {
+		tl := localTypes[rapid.IntRange(0, len(localTypes)-1).Draw(rt, "type")]
+		c := localCase{T: tl.T, Len: tl.Len, Loc: rapid.SampledFrom([]string{"fixed", "Europe/Berlin", "Europe/Berlin", "America/New_York", "Australia/Lord_Howe", "America/Sao_Paulo", "UTC"}).Draw(rt, "loc")}
+		c.Secs = rapid.IntRange(-14*3600, 14*3600).Draw(rt, "offset")
+		c.Y, c.M, c.D = rapid.IntRange(1901, 2078).Draw(rt, "y"), rapid.IntRange(1, 12).Draw(rt, "m"), rapid.IntRange(1, 28).Draw(rt, "d")
+		if days, ok := changeDays[c.Loc]; ok && rapid.IntRange(0, 2).Draw(rt, "changeday") != 0 {
+			x := days[rapid.IntRange(0, len(days)-1).Draw(rt, "which")]
+			c.Y, c.M, c.D = x[0], x[1], x[2]
+		}
+		c.H, c.Mi, c.S = rapid.IntRange(0, 23).Draw(rt, "h"), rapid.IntRange(0, 59).Draw(rt, "mi"), rapid.IntRange(0, 59).Draw(rt, "s")
+		c.Ns = rapid.SampledFrom([]int{0, 0, 3333333, 500000000, 996666667, 123456000}).Draw(rt, "ns")
+		vh.Sample("local-time:"+c.Loc, c)
+		return c
+	}
+	vh.Check(t, "TestLocalTimes", vh.N(20000, 400000), gen, runLocal)
 }
